@@ -356,7 +356,7 @@ def run_models(spec, acc, api):
             if rnd.random() < 0.2:
                 # function and label names are arbitrary strings at model level as well (braces, blanks, percent signs, empty)
                 fmap = {'f1': rnd.choice(['on{click}', 'open{', '{}', 'fmt{0}', 'a b', '100%s', '']), 'f2': rnd.choice(['{x', 'g}', '%(n)s', 'f\\2'])}
-                lmap = {'A': rnd.choice(['{A}', 'l {', '%d']), 'C': '{}'}
+                lmap = {'A': rnd.choice(['{A}', 'l {', '%d', 'exprLoop', 'expr', 'jump', 'return', 'label', 'function', 'include', 'name', 'args']), 'C': rnd.choice(['{}', 'subexprDone', 'statements'])}
 
                 def ren(node):
                     if isinstance(node, dict):
